@@ -704,6 +704,7 @@ class Evaluator(object):
         return a, elem
 
     def for_stmt(self, st, env):
+        st = _product_as_nested_loops(st)
         it = self.ev(st.iter, env)
         self._note_gen_iteration(st.iter, it)
         while it.op == "call" and tm.callee_name(it.a[0]) in ("builtins.list", "builtins.tuple", ".tolist") and len(it.a[1]) == 1 and not it.a[2]:
@@ -720,6 +721,7 @@ class Evaluator(object):
             st = ast.copy_location(ast.For(target=new_target, iter=st.iter, body=st.body, orelse=st.orelse, type_comment=None), st)
             rest_it = it.a[1][1] if len(it.a[1]) == 2 else tm.call(tm.mk("builtin", "zip"), tuple(it.a[1][1:]))
             it = tm.call(tm.mk("builtin", "enumerate"), (rest_it,) + tuple(it.a[1][0].a[1]))
+            self.site("call", st.iter, callee="builtins.enumerate", fn=tm.mk("builtin", "enumerate"), base=None, args=tuple(it.a[1]), kw=(), term=it, via_filter=False, method=None)
         if it.op == "call" and tm.callee_name(it.a[0]) in ("itertools.chain", "itertools.chain.from_iterable") and it.a[1] and not it.a[2] and not st.orelse and not any(isinstance(n, ast.Break) for n in _own_loop_nodes(st)):
             # for x in itertools.chain(A, B): the loop over A followed by the loop over B
             parts_ = list(it.a[1])
@@ -2078,6 +2080,41 @@ def _own_nodes(fn_node):
             if isinstance(ch, ast.stmt) or isinstance(ch, ast.excepthandler):
                 stack.append(ch)
     return out
+
+
+def _product_as_nested_loops(st):
+    """`for a, b in itertools.product(A, B)` (or product(A, repeat=2)) is `for a in A: for b in B:` when the body
+    neither breaks nor has an else clause (continue moves on to the next pair in both spellings)."""
+    it = st.iter
+    if not (isinstance(it, ast.Call) and isinstance(it.func, ast.Attribute) and it.func.attr == "product" and isinstance(it.func.value, ast.Name) and it.func.value.id == "itertools"):
+        return st
+    if st.orelse or not isinstance(st.target, (ast.Tuple, ast.List)) or any(isinstance(a, ast.Starred) for a in it.args):
+        return st
+    if any(isinstance(n, ast.Break) for n in _own_loop_nodes(st)):
+        return st
+    seqs = list(it.args)
+    rep = [k for k in it.keywords if k.arg == "repeat"]
+    if len(rep) != len(it.keywords):
+        return st
+    if rep:
+        if not (isinstance(rep[0].value, ast.Constant) and isinstance(rep[0].value.value, int) and 1 <= rep[0].value.value <= 4):
+            return st
+        seqs = seqs * rep[0].value.value
+    if len(seqs) != len(st.target.elts) or len(seqs) < 2:
+        return st
+    # the sequences are evaluated once, before the loops start: only side-effect free re-evaluable forms are expanded
+    def simple(e):
+        return isinstance(e, ast.Name) or (isinstance(e, ast.Call) and isinstance(e.func, ast.Name) and e.func.id == "range" and all(isinstance(a, (ast.Name, ast.Constant, ast.Attribute, ast.Subscript, ast.BinOp)) for a in e.args) and not e.keywords)
+    if not all(simple(e) for e in seqs):
+        return st
+    names = [e.id for e in seqs if isinstance(e, ast.Name)]
+    if len(set(names)) != len(names):
+        return st  # product(G, G) of a one-shot iterator is not the nested loop
+    body = st.body
+    for tgt, seq in reversed(list(zip(st.target.elts, seqs))):
+        loop = ast.copy_location(ast.For(target=tgt, iter=seq, body=body, orelse=[], type_comment=None), st)
+        body = [loop]
+    return body[0]
 
 
 def _own_loop_nodes(st):
